@@ -10,15 +10,27 @@
     abs <tol> <n> <rhs × n> <b × n>               huge_abs_terms(); test_abs_term(1..n); remove_huge_abs_terms()
     hom <m0> <n> <stdev × n> <rhs × n>            the member b after prepareProjectEquations() when no cluster has
                                                   correlations (`homDiag`)
+    del                                           (model side only) `deleteItems orig (excluded state)`: the INPUT as it
+                                                  was before the first revision, with the items the current state
+                                                  excludes deleted; prints its points, the observation count of its
+                                                  clusters, and whether `revise` finds nothing more to exclude on it
+  The `abs` answer also carries the rows of the table "Outlying absolute terms" (`absRows`).
 -/
 import Gama.Proto
 import Gama.Model.Revise
 open Gama Gama.Proto Gama.Rev
 
-abbrev St := Net Float
+abbrev NetF := Net Float
 
-def emptyNet : St :=
+/-- the network and, once an operation has run, the input as it was before the first operation -/
+structure St where
+  net : NetF
+  orig : Option NetF
+
+def emptyNet : NetF :=
   { pts := [], cls := [], removed := [], undefined := [], revised := [], rejected := [], pocbod := 0, pocmer := 0 }
+
+def St.run (s : St) (f : NetF → NetF) : St := { net := f s.net, orig := some (s.orig.getD s.net) }
 
 def status? : String → Option Status
   | "0" => some .unused | "1" => some .fixed | "2" => some .free | "3" => some .constrained | _ => none
@@ -30,10 +42,10 @@ def obsType? (s : String) : Option ObsType := s.toNat?.bind fun i => ObsType.all
 def typeNum (t : ObsType) : Nat := (ObsType.all.findIdx? (· == t)).getD 99
 def b01 (b : Bool) : String := if b then "1" else "0"
 
-def showObsFlags (n : St) : String :=
+def showObsFlags (n : NetF) : String :=
   "obs " ++ "|".intercalate (n.cls.map fun c => String.join (c.obs.map fun o => b01 o.active))
 
-def showState (n : St) : String :=
+def showState (n : NetF) : String :=
   "\n".intercalate [
     "pts " ++ " ".intercalate (n.pts.map fun p => s!"{p.id}:{statusNum p.sxy}{statusNum p.sz}"),
     showObsFlags n,
@@ -43,7 +55,18 @@ def showState (n : St) : String :=
     "rejected " ++ " ".intercalate (n.rejected.map fun o => s!"{typeNum o.ty}:{o.frm}:{o.to}"),
     s!"counts {n.pocbod} {n.pocmer}" ]
 
-def addObs (n : St) (o : Obs Float) : Option St :=
+def showDeleted (orig cur : NetF) : String :=
+  let d := deleteItems orig (excluded cur)
+  let rd := revise d
+  let stable := rd.removed.isEmpty && rd.rejected.isEmpty &&
+    (rd.cls.all fun c => c.obs.all (·.active)) && (rd.pts.map (·.id) == d.pts.map (·.id)) &&
+    (rd.pts.all fun p => p.active) && (rd.cls.map (·.obs.length) == d.cls.map (·.obs.length))
+  "\n".intercalate [
+    "del pts " ++ " ".intercalate (d.pts.map fun p => s!"{p.id}:{statusNum p.sxy}{statusNum p.sz}"),
+    "del obs " ++ " ".intercalate (d.cls.map fun c => toString c.obs.length),
+    "del stable " ++ b01 stable ]
+
+def addObs (n : NetF) (o : Obs Float) : Option NetF :=
   match n.cls.reverse with
   | [] => none
   | c :: rest => some { n with cls := (({ c with obs := c.obs ++ [o] }) :: rest).reverse }
@@ -53,31 +76,33 @@ def step (s : St) (line : String) : St × String :=
   | ["pt", id, sxy, sz, hxy, hz, x, y, z] =>
     match id.toNat?, status? sxy, status? sz, bool? hxy, bool? hz, float? x, float? y, float? z with
     | some id, some sxy, some sz, some hxy, some hz, some x, some y, some z =>
-      ({ s with pts := s.pts ++ [{ id, sxy, sz, hxy, hz, x, y, z }] }, "")
+      ({ s with net := { s.net with pts := s.net.pts ++ [{ id, sxy, sz, hxy, hz, x, y, z }] } }, "")
     | _, _, _, _, _, _, _, _ => (s, "bad-op")
   | ["cl", st] =>
     match bool? st with
-    | some st => ({ s with cls := s.cls ++ [{ stand := st, obs := [], actObs := 0, cov := fun _ _ => 0 }] }, "")
+    | some st => ({ s with net := { s.net with cls := s.net.cls ++ [{ stand := st, obs := [], actObs := 0, cov := fun _ _ => 0 }] } }, "")
     | none => (s, "bad-op")
   | ["ob", ty, frm, to, fs, act, v] =>
     match obsType? ty, frm.toNat?, to.toNat?, fs.toNat?, bool? act, float? v with
     | some ty, some frm, some to, some fs, some active, some value =>
-      match addObs s { ty, frm, to, fs, active, value } with
-      | some s' => (s', "")
+      match addObs s.net { ty, frm, to, fs, active, value } with
+      | some n' => ({ s with net := n' }, "")
       | none => (s, "bad-op")
     | _, _, _, _, _, _ => (s, "bad-op")
-  | ["revise"] => let s' := revise s; (s', showState s')
-  | ["revobs"] => let s' := revisionObservations s; (s', showState s')
+  | ["revise"] => let s' := s.run revise; (s', showState s'.net)
+  | ["revobs"] => let s' := s.run revisionObservations; (s', showState s'.net)
   | "abs" :: tol :: n :: rest =>
     match float? tol, n.toNat?, parseAll (K := Float) rest with
     | some tol, some n, some vals =>
       if vals.length ≠ 2 * n then (s, "bad-op") else
       let rhs := vals.take n
       let bh := vals.drop n
-      let flag := hugeFlag s tol rhs
-      let terms := absTerms s tol rhs bh
-      let s' := removeHuge s tol rhs bh
-      (s', "\n".intercalate [s!"flag {b01 flag}", "terms " ++ renderAll terms, showObsFlags s'])
+      let flag := hugeFlag s.net tol rhs
+      let terms := absTerms s.net tol rhs bh
+      let rows := absRows s.net tol rhs bh
+      let s' := s.run fun x => removeHuge x tol rhs bh
+      (s', "\n".intercalate [s!"flag {b01 flag}", "terms " ++ renderAll terms,
+        "rows " ++ " ".intercalate (rows.map fun q => s!"{q.1}:{typeNum q.2.ty}:{q.2.frm}:{q.2.to}"), showObsFlags s'.net])
     | _, _, _ => (s, "bad-op")
   | "hom" :: m0 :: n :: rest =>
     match float? m0, n.toNat?, parseAll (K := Float) rest with
@@ -85,6 +110,7 @@ def step (s : St) (line : String) : St × String :=
       if vals.length ≠ 2 * n then (s, "bad-op") else
       (s, "hom " ++ renderAll (homDiag m0 (vals.take n) (vals.drop n)))
     | _, _, _ => (s, "bad-op")
+  | ["del"] => (s, showDeleted (s.orig.getD s.net) s.net)
   | _ => (s, "bad-op")
 
-def main : IO Unit := loop step emptyNet
+def main : IO Unit := loop step { net := emptyNet, orig := none }
